@@ -313,14 +313,27 @@ func (x *Exec) invoke(bc *blockCtx, in ssa.Instruction, recv *Val, m *types.Func
 	rt := x.asTerm(recv)
 	x.check(bc, "safe:nil", in, x.b.Not(x.b.Eq(x.b.App("i_tag", "Int", rt), x.b.Int(0))))
 	var res *Val
+	pre := bc.st
 	if pure {
 		res = x.pureInvoke(key, rt, m, args, resT)
 		if res != nil && res.T != nil {
 			x.rangeFacts(res.T, res.Typ, bc.reach, 1)
 		}
+		if mc != nil && mc.Assigns != "" && mc.Assigns != "nothing" {
+			// deterministic result, but declared effects on ghost / heap state
+			pre = bc.st.clone()
+			for _, k := range strings.Fields(strings.ReplaceAll(mc.Assigns, ",", " ")) {
+				if k == "G_calls" {
+					x.heapSorts["G_calls"] = "(Array Int Int)"
+				}
+				hk := x.resolveHeapName(&CEnv{x: x, st: bc.st, pkg: x.prog.pkgOfFile(mc.File)}, k)
+				bc.st.heaps[hk] = x.b.Fresh(hk+"_after_"+shortFn(key), x.heapSorts[hk])
+			}
+		}
 	} else {
 		x.note("interface method treated as havoc (not declared pure): " + key)
 		sig := m.Type().(*types.Signature)
+		pre = bc.st.clone()
 		res = x.havocCall(bc, sig, key, true)
 	}
 	if mc != nil {
@@ -331,7 +344,7 @@ func (x *Exec) invoke(bc *blockCtx, in ssa.Instruction, recv *Val, m *types.Func
 		for i := 0; i < sig.Params().Len(); i++ {
 			vars[sig.Params().At(i).Name()] = args[i]
 		}
-		ce := &CEnv{x: x, st: bc.st, old: bc.st, vars: vars, guard: bc.reach, fc: mc, pkg: x.prog.pkgOfFile(mc.File)}
+		ce := &CEnv{x: x, st: bc.st, old: pre, vars: vars, guard: bc.reach, fc: mc, pkg: x.prog.pkgOfFile(mc.File)}
 		x.bindResults(ce, sig, res)
 		for _, e := range mc.Ensures {
 			x.assume(bc.reach, x.evalBool(ce, e))
@@ -413,6 +426,10 @@ func (x *Exec) ifaceAxiom(key string, m *types.Func) {
 		pats = []*smt.Term{res.Tup[0].T}
 	}
 	for _, e := range mc.Ensures {
+		if strings.Contains(e.Text, "old(") || strings.Contains(e.Text, "calls(") {
+			// effect clauses relate two states; they are only instantiated at call sites
+			continue
+		}
 		body := x.evalBool(ce, e)
 		q := x.b.Quant("forall", bvs, body, pats...)
 		x.hyps = append(x.hyps, q)
